@@ -5,7 +5,7 @@
 #include "../fw/explore.h"
 #include "../fw/hx.h"
 #include "../fw/ref_flow.h"
-#include "/repo/include/bidib.h"
+#include "include/bidib.h"
 #include <stdio.h>
 #include <stdlib.h>
 #include <string.h>
